@@ -154,6 +154,58 @@ def _compares_unordered(m):
     return None
 
 
+MEMBER_ATTRS = ("parameters", "__args__", "types", "args", "members")
+
+
+def _order_free_by_interpretation(ctx, cls, m):
+    """Interpret __eq__ / __hash__ on two objects whose members are the same in another order (and on two with
+    different members).  -> True / False, or None if not interpretable."""
+    from ..metainterp import HostInterp, Instance, Raised
+
+    from .more import _attrs_read
+
+    methods = {n: mm.node for cc in reversed(ctx.repo.class_mro(cls)) for n, mm in cc.methods.items()}
+    attrs = _attrs_read(m)
+    if not attrs or not (attrs & set(MEMBER_ATTRS)):
+        return None
+
+    def mk(members):
+        o = Instance(cls.name, methods)
+        for a in attrs:
+            if a in MEMBER_ATTRS:
+                o.__dict__[a] = tuple(members)
+            elif a == "bound":
+                o.__dict__[a] = "BOUND"
+            elif a == "parameter":
+                o.__dict__[a] = members[0]
+            else:
+                return None
+        return o
+
+    a, b, c = mk(("v1", "v2")), mk(("v2", "v1")), mk(("v1", "v3"))
+    if a is None:
+        return None
+    hi = HostInterp({}, a, {}, globals_env={}, classes={cls.name: methods}, functions={})
+    try:
+        if m.name == "__eq__":
+            same = hi.call_function(m.node, [a, b], {}, {})
+            diff = hi.call_function(m.node, [a, c], {}, {})
+            if diff is True or (diff and diff is not NotImplemented):
+                return None  # the method does not look at the members at all: not what this rule is about
+            return bool(same) and same is not NotImplemented
+        ha, hb = hi.call_function(m.node, [a], {}, {}), hi.call_function(m.node, [b], {}, {})
+        return ha == hb
+    except (AnalysisError, Raised):
+        return None
+
+
+def _unordered(ctx, cls, m):
+    r = _order_free_by_interpretation(ctx, cls, m)
+    if r is None:
+        return bool(_compares_unordered(m))
+    return r
+
+
 def r4_commutative_combinators(ctx):
     repo = ctx.repo
     n = 0
@@ -162,7 +214,7 @@ def r4_commutative_combinators(ctx):
             for mname in ("__eq__", "__hash__"):
                 m = c.methods[mname]
                 ctx.touch(m)
-                r = _compares_unordered(m)
+                r = _unordered(ctx, c, m)
                 n += 1
                 ctx.ob(
                     f"{m.key}:{'unordered' if r else 'ordered'}",
@@ -183,7 +235,7 @@ def r4_commutative_combinators(ctx):
             m = repo.find_method(c, mname)
             ctx.require(m is not None, f"{c.key}: no {mname}")
             ctx.touch(m)
-            r = _compares_unordered(m)
+            r = _unordered(ctx, c, m)
             own = m.cls is c
             ctx.ob(
                 f"{c.key}.{mname}:{'unordered' if r else 'ordered'}",
